@@ -120,6 +120,17 @@ fn main() {
         }
         Some("probe-alltypes") => build::probe_alltypes_main(&args[2]),
         Some("costprobe") => debug::costprobe(),
+        Some("nestdump") => {
+            // developer aid: write the input of a nesting case to stdout
+            use std::io::Write;
+            match storage::nest_input(&args[2], args[3].parse().expect("depth")) {
+                Some((_, b)) => {
+                    let _ = std::io::stdout().write_all(&b);
+                    0
+                }
+                None => 2,
+            }
+        }
         Some("nestcase") => storage::nestcase_main(&args[2], args[3].parse().expect("depth")),
         Some("inst") => debug::inst(&args[2], &args[3], args.get(4).map(|s| s.as_str()).unwrap_or("")),
         Some("hashprobe") => {
